@@ -23,7 +23,7 @@ for sid in sorted(os.listdir(os.path.join(VERIF, 'seeded'))):
                 sigs.append(tag)
     rows.append('| %s | %s: %s | %s | %s | %s |' % (
         sid, ', '.join(f.replace('dataflows/', '') for f in files), (m.get('summary') or title).replace('|', '/'),
-        ', '.join(m.get('caught_by', [])) or '**none**',
+        (', '.join(m.get('caught_by', [])) or '**none**') + (' (obsolete: see history)' if m.get('obsolete') else ''),
         '; '.join(s.replace('|', '/') for s in sigs[:3]) + (' …' if len(sigs) > 3 else ''),
         m.get('history', '').replace('|', '/')))
 table = '\n'.join(['| change | what it does | caught by | replay(s) reported | history |', '|---|---|---|---|---|'] + rows)
